@@ -61,6 +61,22 @@ THEOREMS = [
     "Mpc.C07_history_add_then_udiv",
     "Mpc.C07_history_divider_pair",
     "Mpc.C07_history_goldschmidt_pair",
+    # operand shapes: operand buses of ANY existing wires (constant wires, repeated wires, one bus twice)
+    "Mpc.C07_operand_shapes",
+    "Mpc.C07_builders_any_operand_wires_eq",
+    "Mpc.C07_builders_any_operand_wires_neq",
+    "Mpc.C07_builders_any_operand_wires_ucmp",
+    "Mpc.C07_builders_any_operand_wires_icmp",
+    "Mpc.C07_builders_any_operand_wires_adder",
+    "Mpc.C07_builders_any_operand_wires_sub",
+    "Mpc.C07_builders_any_operand_wires_mux",
+    "Mpc.C07_builders_any_operand_wires_mul",
+    "Mpc.C07_builders_any_operand_wires_udiv",
+    "Mpc.C07_builders_any_operand_wires_bits",
+    "Mpc.C07_builders_any_operand_wires_hamming",
+    "Mpc.C07_shaped_call",
+    "Mpc.C07_shaped_call3",
+    "Mpc.C07_eq_neq_zext_vs_constant",
 ]
 
 # builder called per SSA opcode in compiler/ssa/circuitgen.go (T2)
@@ -222,7 +238,7 @@ def histories(ctx):
     Compiler per program, many builder calls on it) and their compiled-program form."""
     ops, out, meta = ctx.run_hx("hist", 0, seed=ctx.seed)
     ctx.absorb_meta(meta, prefix="hist_")
-    ctx.correspond("histories of 2..5 builder calls on ONE Compiler: gate lists (T4) and evaluations (T3)", ops, out)
+    ctx.correspond("histories of 1..5 builder calls on ONE Compiler, operand buses of value, constant and repeated wires: gate lists (T4) and evaluations (T3)", ops, out)
     for line in open(ops, errors="replace"):
         f = line.split(" ", 6)
         if len(f) > 5 and f[1] == "hgr":
@@ -236,11 +252,23 @@ def histories(ctx):
         "Yao": c.get("hist_Yao", 0), "GMW": c.get("hist_GMW", 0),
         "calls_fed_by_earlier_results": c.get("hist_calls_fed_by_earlier_results", 0),
         "distinct_consecutive_builder_pairs_x_target": len(pairs),
+        "calls_with_shaped_operands": c.get("hist_calls_with_shaped_operands", 0),
+        "calls_with_constant_wires_in_an_operand": c.get("hist_calls_with_constant_wires", 0),
+        "calls_x_op_x": c.get("hist_calls_x_op_x", 0),
+        "builder_x_target_with_constant_operand_wires": len([k for k in c if k.startswith("hist_const_call_")]),
         "fully_exhaustive": c.get("hist_exhaustive", 0), "t4_lines": c.get("hist_t4_lines", 0),
         "t4_gates": c.get("hist_t4_gates", 0), "call_evaluations": c.get("evaluations", 0)}
+    names = sorted(k[len("hist_call_"):] for k in c if k.startswith("hist_call_"))
+    missing = [n + "/" + t for n in names for t in ("Yao", "GMW") if not c.get("hist_const_call_%s_%s" % (n, t))]
+    ctx.oblige("operand shapes: every builder of the harness received operand buses holding the Compiler's constant wires on "
+               "both targets (calls with constant wires > 3000, x op x > 100)",
+               len(names) >= 38 and not missing and c.get("hist_calls_with_constant_wires", 0) > 3000
+               and c.get("hist_calls_x_op_x", 0) > 100,
+               "builders=%d, without constant operand wires: %s, calls with constant wires=%d, x op x=%d" % (
+                   len(names), missing, c.get("hist_calls_with_constant_wires", 0), c.get("hist_calls_x_op_x", 0)))
     ctx.oblige("history harness ran (histories > 1000, each class present, both targets, divider-after-divider on GMW, "
                "T4 lines > 1000)",
-               c.get("histories", 0) > 1000 and all(c.get("hist_class_" + k, 0) > 0 for k in ("pair", "same", "chain", "rand", "wide"))
+               c.get("histories", 0) > 1000 and all(c.get("hist_class_" + k, 0) > 0 for k in ("pair", "same", "chain", "rand", "wide", "shape"))
                and c.get("hist_Yao", 0) > 100 and c.get("hist_GMW", 0) > 100 and c.get("hist_pair_udiv>udiv_GMW", 0) > 5
                and c.get("hist_t4_lines", 0) > 1000 and c.get("hist_calls_fed_by_earlier_results", 0) > 300, str(c)[:600])
     # compiled programs: several operations in ONE MPCL function
@@ -250,14 +278,20 @@ def histories(ctx):
                    ops, out)
     c = meta.get("counters", {})
     ctx.evaluations += c.get("evaluations", 0)
-    ctx.coverage["programs"] = {
+    ctx.coverage["compiled_programs"] = {
         "programs": c.get("programs", 0), "by_class": {k[len("prog_class_"):]: v for k, v in c.items() if k.startswith("prog_class_")},
         "Yao": c.get("prog_target_0", 0), "GMW": c.get("prog_target_1", 0),
         "statements_fed_by_earlier_results": c.get("prog_statements_fed_by_earlier_results", 0),
+        "statements_with_shaped_operands": c.get("prog_statements_with_shaped_operands", 0),
+        "operand_forms": {k[len("prog_form_"):]: v for k, v in c.items() if k.startswith("prog_form_")},
+        "statements_x_op_x": c.get("prog_statements_x_op_x", 0),
         "statement_evaluations": c.get("evaluations", 0), "evalc_lines": c.get("prog_evalc_lines", 0)}
-    ctx.oblige("program harness ran (programs > 500, both targets, two divisions in one function)",
+    ctx.oblige("program harness ran (programs > 500, both targets, two divisions in one function, statements whose operands "
+               "are constants / shifts / casts / x op x)",
                c.get("programs", 0) > 500 and c.get("prog_target_0", 0) > 100 and c.get("prog_target_1", 0) > 100
-               and c.get("prog_pair_/_then_/", 0) > 5, str(c)[:600])
+               and c.get("prog_pair_/_then_/", 0) > 5 and c.get("prog_statements_with_shaped_operands", 0) > 1000
+               and all(c.get("prog_form_" + k, 0) > 50 for k in ("const", "shr", "shl", "zx", "zxshl", "tr"))
+               and c.get("prog_statements_x_op_x", 0) > 50, str(c)[:600])
 
 
 def run(ctx):
@@ -304,6 +338,11 @@ def run(ctx):
                 ctx.absorb_meta(meta, prefix="widen_hist_")
                 if [f for f in ctx.fails if not ctx.is_known(f)]:
                     break
+                # operand shapes with other seed-derived constants
+                ops, out, meta = ctx.run_hx("hist", 1, seed=s, tag="-widen", extra_args=["-extra", "only=shape"])
+                ctx.absorb_meta(meta, prefix="widen_shape_")
+                if [f for f in ctx.fails if not ctx.is_known(f)]:
+                    break
     ctx.coverage["rule"] = (
         "HISTORIES (the property is about the builders as the compiler uses them: one circuits.Compiler per program, many "
         "builder calls on it): sequences of 2..5 builder calls on ONE Compiler x {Yao,GMW}: every ordered pair of builder "
@@ -317,7 +356,9 @@ def run(ctx):
         "whole history with the Lean generators run in the same sequence from the same state (do r1 <- b1; r2 <- b2 ...). "
         "Compiled-program form: MPCL functions with 2..5 statements (/ % * + - & | ^ and the six comparisons, uintN and intN, "
         "statements fed by earlier results) compiled for both targets, every statement judged, compiled circuit through the "
-        "Lean evaluator. Signed kinds take equal operand widths in histories (the open zero-extension findings are judged "
+        "Lean evaluator; class cshape: for every operator, uintN and intN, both targets, statements whose operands are "
+        "constants (inside and, in 2N-bit statements, OUTSIDE the range of the other operand), shifts by constants, casts to "
+        "the wider type (zero / sign extension), shifted casts, truncating casts of earlier results and x op x. Signed kinds take equal operand widths in histories (the open zero-extension findings are judged "
         "by the single-call oracle). "
         "SINGLE CALLS: oracle: every builder x {Yao,GMW} x operand widths 1..E (E=5 quick + equal widths 6..8, E=8 thorough) x result "
         "widths {1,max-1,max,max+1,2max,2max+1,2max+3} with ALL operand values, plus boundary-biased samples at widths up "
@@ -354,6 +395,14 @@ def run(ctx):
         "extends the state well-formedly (loop-based generator, not proved; its gate list is tied by T4)",
     ]
     return ctx.finish(
+        "OPERAND SHAPES: the _spec lemmas ask of operand wires only that they exist (Bnd) and speak about the values they carry "
+        "(busVal); stated explicitly as Mpc.C07_builders_any_operand_wires_{eq,neq,ucmp,icmp,adder,sub,mux,mul,udiv,bits,"
+        "hamming} (any wire ids below s.next: inputs, gate outputs, the constant wires, the same wire several times), "
+        "Mpc.C07_operand_shapes (an operand made of bus slices and constant wires, the constant wires created on demand: "
+        "wires exist, values = opndVal), Mpc.C07_shaped_call / C07_shaped_call3 (a builder call on such operands is a sound "
+        "call of a history, so C07_history covers them), instance Mpc.C07_eq_neq_zext_vs_constant (uintN(a) == c is false "
+        "and uintN(a) != c is true for every a when c has a 1 outside the range of a, every width, with and without "
+        "prologue); tie: class shape of the history harness and class cshape of the program harness. "
         "HISTORIES of builder calls on one Compiler: Mpc.C07_history_compose (sequential composition keeps both "
         "postconditions: frame property), Mpc.C07_history (fold over a history of any length: every call sound from any "
         "state => every call's postcondition holds in the final state, operands = inputs or earlier results), "
